@@ -44,6 +44,9 @@ type C12TxTTL struct {
 	AgeH  int    `json:"age_h"`
 	TTLH  int    `json:"ttl_h"`
 	Where string `json:"where"`
+	// ZoneMin: the process's local zone (minutes east of UTC) while the transaction is begun and gc runs; the
+	// store keeps and compares the begin time as text
+	ZoneMin int `json:"zone_min,omitempty"`
 }
 
 type C12Ref struct {
@@ -82,6 +85,9 @@ func init() {
 				} else {
 					tt.TTLH = Pick(r, []int{1000, 2400, 24 * 365})
 					tt.AgeH = Pick(r, []int{1, 721, 800, tt.TTLH - 1})
+				}
+				if rz := r.Sub("txzone"); rz.Chance(0.6) {
+					tt.ZoneMin = Pick(rz, []int{540, 330, -300, 765, 120, -600, 60})
 				}
 				p.TxTTL = tt
 				return p
@@ -249,7 +255,19 @@ func execC12(t *testing.T, raw json.RawMessage, res *Result) {
 			res.Invalid("tx_ttl")
 			return
 		}
-		if _, err := db.NewTransaction(&ref.Transaction{ID: uuid.MustParse(c12tx), Status: ref.TSInProgress, Begin: bubbleEpoch.Add(node.Clock)}); err != nil {
+		if tt.ZoneMin < -14*60 || tt.ZoneMin > 14*60 {
+			db.Close()
+			res.Invalid("zone")
+			return
+		}
+		if tt.ZoneMin != 0 {
+			prevLocal := time.Local
+			time.Local = time.FixedZone("sim", tt.ZoneMin*60)
+			defer func() { time.Local = prevLocal }()
+			res.probe("gc_in_a_zone_off_utc", 1)
+		}
+		// begun as `wrgl transaction start` does: at time.Now(), which carries the local zone
+		if _, err := db.NewTransaction(&ref.Transaction{ID: uuid.MustParse(c12tx), Status: ref.TSInProgress, Begin: bubbleEpoch.Add(node.Clock).In(time.Local)}); err != nil {
 			db.Close()
 			res.Invalid("transaction row: %v", err)
 			return
